@@ -18,10 +18,10 @@ EXPLANATION = ('PROVED (exact normal form; g = (unit quaternion, translation) sy
                'joint-frame pose and twist (j, jd) and to covariant anchors -- so every joint kernel, being a function of (j, jd), sees identical inputs; com.from_world / to_world / '
                'inv_inertia are covariant; the spring and positional integrators commute with g when gravity is rotated with the scene; spring.joints.resolve is covariant with the '
                'kernels cut; the positional PBD kernels _translation_update / _rotation_update and the glue of position_update (argument passing, parent gather / scatter) are covariant; forward kinematics is equivariant under a transformed free root (direct instance f+h); scan.tree results are permuted, not changed, by every sibling '
-               'reordering (forests <= 4 links); disconnected components do not couple in the mass matrix (C02/crb_form two-trees).  BOUNDED (not proof): whole-step commutation for '
+               'reordering (forests <= 4 links); the generalized pipeline stage by stage -- transform_com maps (g o x, T qd) to the rotated CoM-frame quantities (root translations stay world-aligned), mass.matrix and dynamics.inverse are invariant under a common rotation of all their spatial inputs and gravity; disconnected components do not couple in the mass matrix (C02/crb_form two-trees).  BOUNDED (not proof): whole-step commutation for '
                'the three pipelines on generated free-rooted models, sibling permutations and merged documents.')
 TRUSTED = ['paper lemma: kernels that are functions of invariants (j, jd) give invariant joint forces; equivariance of the composed step from equivariance of its stages']
-ASSUMPTIONS = ['exact reals', 'whole-step equivariance through the transcendental joint kernels is only bounded', 'generalized pipeline: bias/step equivariance only bounded']
+ASSUMPTIONS = ['exact reals', 'whole-step equivariance through the transcendental joint kernels is only bounded', 'generalized pipeline: stage covariance proved (transform_com, mass.matrix, dynamics.inverse); that M(g s) = T M T^T and bias(g s) = T bias(s) give qdd(g s) = T qdd(s), and the covariance of the free-joint position update (its formula is C02/integrator._integrate_q_free/step), are paper lemmas; the whole step is bounded']
 BOUNDED_RULE = 'free-rooted generator models x random rigid transforms x pipelines; non-trivial = distinct (model, transform, pipeline)'
 
 
@@ -619,10 +619,129 @@ def position_update_covariant(shape='f-(h,s)'):
                     assumes=('C05/kinematics.world_to_joint/invariant', 'C05/com.from_world,to_world,inv_inertia/covariant', 'C05/positional.joints._translation_update/covariant',
                              'C05/positional.joints._rotation_update/covariant', 'paper lemma: the joint-frame displacement kernel is a function of the invariant j'))
 
+def generalized_stage_invariant(which, name):
+  """mass.matrix and dynamics.inverse are functions of the CoM-frame quantities (cinr, cdof, cd, cdofd) and gravity only: rotating ALL of them by one rotation changes nothing.
+  (Translations do not enter at all: everything is expressed about the tree's centre of mass.)"""
+  from verif.contracts import C02
+  parents, types = C02.FORESTS[name]
+
+  def run():
+    from brax.generalized import mass, dynamics
+    from brax.base import Motion, Inertia, Transform
+    A = RingAlg()
+    sys = C02._forest_sys(parents, types)
+    n, nv = sys.num_links(), sys.qd_size()
+    cinr, fm, ii, m = C02.sym_inertia(A, n)
+    gq, _ = _g(A)
+    Xs = lambda v: [X(e, A) for e in v]
+    R = sx.qmat(Xs(gq))
+    rotv = lambda arr: _rot_v(A, gq, arr)
+
+    def rot_inertia():
+      i2 = np.empty((n, 3, 3), dtype=object)
+      for l in range(n):
+        for a in range(3):
+          for b in range(3):
+            acc = X(0, A)
+            for c in range(3):
+              for d in range(3):
+                acc = acc + R[a][c] * X(ii[l][c][d], A) * R[b][d]
+            i2[l][a][b] = acc.v
+      return Inertia(transform=Transform(pos=Sym(rotv(fm)), rot=jp.tile(jp.array([1.0, 0, 0, 0]), (n, 1))), i=Sym(i2), mass=Sym(m))
+    ca, cv = A.arr('da', (nv, 3)), A.arr('dv', (nv, 3))
+    if which == 'mass':
+      arm = A.arr('arm', (nv,))
+      sys2 = sys.replace(dof=sys.dof.replace(armature=Sym(arm)))
+      M0 = sym_call(Interp(A), mass.matrix, sys2, Stub(cinr=cinr, cdof=Motion(ang=Sym(ca), vel=Sym(cv))))
+      M1 = sym_call(Interp(A), mass.matrix, sys2, Stub(cinr=rot_inertia(), cdof=Motion(ang=Sym(rotv(ca)), vel=Sym(rotv(cv)))))
+      return ring_equal(A, M1, M0, name='mass matrix invariant')
+    da, dv = A.arr('dda', (nv, 3)), A.arr('ddv', (nv, 3))
+    cda, cdv = A.arr('cda', (n, 3)), A.arr('cdv', (n, 3))
+    qd, g = A.arr('qd', (nv,)), A.arr('g', (3,))
+    st0 = Stub(cinr=cinr, cdof=Motion(ang=Sym(ca), vel=Sym(cv)), cdofd=Motion(ang=Sym(da), vel=Sym(dv)), cd=Motion(ang=Sym(cda), vel=Sym(cdv)), qd=Sym(qd))
+    st1 = Stub(cinr=rot_inertia(), cdof=Motion(ang=Sym(rotv(ca)), vel=Sym(rotv(cv))), cdofd=Motion(ang=Sym(rotv(da)), vel=Sym(rotv(dv))),
+               cd=Motion(ang=Sym(rotv(cda)), vel=Sym(rotv(cdv))), qd=Sym(qd))
+    t0 = sym_call(Interp(A), dynamics.inverse, sys.replace(gravity=Sym(g)), st0)
+    t1 = sym_call(Interp(A), dynamics.inverse, sys.replace(gravity=Sym(rotv(g.reshape(1, 3)).reshape(3))), st1)
+    return ring_equal(A, t1, t0, name='bias force invariant')
+  fn = {'mass': 'brax.generalized.mass:matrix', 'bias': 'brax.generalized.dynamics:inverse'}[which]
+  return Obligation('C05/%s/rotation_invariant[%s]' % (fn.replace('brax.', '').replace(':', '.'), name), fn,
+                    'with SYMBOLIC CoM-frame inputs (cinr, cdof%s) and a symbolic rotation R: rotating every spatial quantity%s by R leaves the %s unchanged (translations do not enter: '
+                    'all quantities are about the tree centre of mass)' % ((', cd, cdofd, qd, gravity', ' and gravity', 'bias force') if which == 'bias' else ('', '', 'mass matrix')),
+                    run, backend='ring', budget=900)
+
+
+def transform_com_covariant(word, tiers):
+  """transform_com on (g o x, q, T qd) vs (x, q, qd): the CoM-frame quantities are rotated by R, root_com is moved by g; the translational dofs of a free root stay world-aligned
+  (their coordinates qd are rotated instead: T = diag(R, 1, ..., 1))"""
+  xml = physsys.xml_free_parent(word)
+
+  def run():
+    from verif.engine.opaque import cut
+    from verif.contracts import C02
+    from brax.generalized import dynamics
+    A = RingAlg()
+    sys = physsys.load(xml)
+    ss = physsys.SymSys(A, sys)
+    ss.declare_units()
+    q, qd = ss.state()
+    ss.slide_hints(q)
+    n, nv = sys.num_links(), sys.qd_size()
+    gq, gt = _g(A)
+    st0, xp, xr = C02._state(A, sys, q, qd)
+    xp2, xr2 = _apply_T(A, gq, gt, xp, xr)
+    qd2 = qd.copy()
+    qd2[0:3] = _rot_v(A, gq, qd[0:3].reshape(1, 3)).reshape(3)          # the root's world-frame linear velocity is rotated; body-frame angular velocity and joint rates are not
+    from brax.base import Transform
+    st1 = st0.replace(x=Transform(pos=Sym(xp2), rot=Sym(xr2)), qd=Sym(qd2))
+    f = lambda s, state: (lambda r: {'root_com': r.root_com, 'ci': r.cinr.i, 'cfm': r.cinr.transform.pos, 'cm': r.cinr.mass, 'ang': r.cdof.ang, 'vel': r.cdof.vel,
+                                     'cd_ang': r.cd.ang, 'cd_vel': r.cd.vel, 'dd_ang': r.cdofd.ang, 'dd_vel': r.cdofd.vel})(dynamics.transform_com(s, state))
+    with cut(*C02.CUT):
+      o0 = sym_call(Interp(A, cuts=C02.CUTS), f, ss.sys, st0)
+      o1 = sym_call(Interp(A, cuts=C02.CUTS), f, ss.sys, st1)
+    Xs = lambda v: [X(e, A) for e in v]
+    R = sx.qmat(Xs(gq))
+    res = []
+    rc = np.empty((n, 3), dtype=object)
+    for l in range(n):
+      p_, _ = sx.t_compose(Xs(gt), Xs(gq), Xs(o0['root_com'][l]), [X(1, A), X(0, A), X(0, A), X(0, A)])
+      rc[l] = [e.v for e in p_]
+    res.append(ring_equal(A, o1['root_com'], rc, name='root_com moved by g'))
+    i2 = np.empty((n, 3, 3), dtype=object)
+    for l in range(n):
+      for a in range(3):
+        for b in range(3):
+          acc = X(0, A)
+          for c in range(3):
+            for d in range(3):
+              acc = acc + R[a][c] * X(o0['ci'][l][c][d], A) * R[b][d]
+          i2[l][a][b] = acc.v
+    res += [ring_equal(A, o1['ci'], i2, name='cinr.i -> R i R^T'), ring_equal(A, o1['cfm'], _rot_v(A, gq, o0['cfm']), name='cinr first moment rotated'),
+            ring_equal(A, o1['cm'], o0['cm'], name='cinr.mass')]
+    rot_dofs = list(range(3, nv))          # every dof except the root's three world-aligned translations
+    for k in ('ang', 'vel', 'dd_ang', 'dd_vel'):
+      res.append(ring_equal(A, o1[k][rot_dofs], _rot_v(A, gq, o0[k][rot_dofs]), name='%s rotated' % k))
+      res.append(ring_equal(A, o1[k][0:3], o0[k][0:3], name='%s of the root translations unchanged (world-aligned basis)' % k))
+    for k in ('cd_ang', 'cd_vel'):
+      res.append(ring_equal(A, o1[k], _rot_v(A, gq, o0[k]), name='%s rotated' % k))
+    r = combine(res)
+    r.stats.update({'peak_terms': A.peak})
+    if r.verdict == REFUTED:
+      r.replay = _native_equivariance(('generalized',), 4)
+    return r
+  return Obligation('C05/generalized.dynamics.transform_com/covariant[f+%s]' % word, 'brax.generalized.dynamics:transform_com',
+                    'x symbolic at the boundary, g = (unit quaternion, translation) symbolic, qd -> T qd (root linear velocity rotated): root_com is moved by g; cinr, cd and every dof axis / '
+                    'axis derivative except the three world-aligned root translations are rotated by R; with mass.matrix and dynamics.inverse rotation-invariant this gives M(g s) = T M(s) T^T and '
+                    'bias(g s) = T bias(s)', run, backend='ring', tiers=tiers, budget=1500)
+
+
 def obligations(tier):
   Q, Th = ('quick', 'thorough'), ('thorough',)
   obs = [to_local_invariant(), w2j_invariant('h', Q), w2j_invariant('sh', Th), com_covariant(), integrator_covariant('spring'), integrator_covariant('positional'), resolve_covariant(), pbd_kernel_covariant('translation'), pbd_kernel_covariant('rotation'), position_update_covariant(),
          forward_equivariant(Q), sibling_permutation(), bounded(tier)]
+  # generalized pipeline, stage by stage at the function boundaries: transform_com is covariant, mass.matrix and dynamics.inverse are rotation invariant
+  obs += [generalized_stage_invariant('mass', 'chain3[1,2,1]'), generalized_stage_invariant('bias', 'chain3[1,2,1]'), generalized_stage_invariant('mass', 'two-trees[f,1;2]'),
+          generalized_stage_invariant('bias', 'two-trees[f,1;2]'), transform_com_covariant('h', Q), transform_com_covariant('s', Th)]
   # premises: "every quantity is carried in an explicit frame and moved with Transform.do / inv_do / math.rotate" -- the frame-moving helpers are what they claim to be
   # (the corresponding C09 obligations, carried here as premises so that a slip in one of them is reported against C05 as well)
   # the callee contract of scan._take (every index list, also those only forests of 7+ links produce) -- shared with C01
